@@ -7,7 +7,7 @@ from sqv import hlib
 from spec import refsem as R
 from sqv.nodes import Stub, mkstate, build
 from smartquery import ast_ops, functions
-from smartquery.ast_ops import BinOp, UnaryOp, SliceOp
+from smartquery.ast_ops import BinOp, UnaryOp, SliceOp, ShortOp
 from smartquery.custom_types import Decimal
 from smartquery.functions import FUNCTIONS
 from smartquery.exceptions import ParserError
@@ -290,4 +290,59 @@ def template(a: int, b: int, c: int, si: int, n: int) -> None:
         k2 = {k: v for k, v in h2.items() if not _isfn(v)}
         assert k1 == k2, "%r: host names afterwards differ from the reference semantics" % text
         assert started == env.ops, "%r: operations charged differ from the number of node evaluations of the reference semantics" % text
+    hlib.done()
+
+
+# operators on the Python ints / bools that builtins such as len, index_of, enumerate and the host hand out
+INTS = [0, 1, 2, 3, 7, -4, True, False, 10, 6]
+
+
+def int_operands(ai: int, bi: int, short: bool) -> None:
+    """
+    pre: 0 <= ai < 10 and 0 <= bi < 10
+    post: True
+    """
+    hlib.enter(locals())
+    op = hlib.PARAM["op"]
+    ai, bi = hlib.concrete(ai, 0, 9), hlib.concrete(bi, 0, 9)
+    short = True if short else False
+    with hlib.native():
+        a, b = INTS[ai], INTS[bi]
+        if short:
+            host = {'x': a}
+            real, rexc = _run(lambda: (ShortOp('x', op + '=', Stub([], 0, b)).eval(mkstate(0, 100, host=host)), host['x'])[1])
+            ref, fexc = _run(lambda: R.short(op + '=', a, b))
+        else:
+            real, rexc = _run(lambda: BinOp(op, Stub([], 0, a), Stub([], 1, b)).eval(mkstate(0, 100)))
+            ref, fexc = _run(lambda: R.binop(op, a, lambda: b))
+        msg = None
+        try:
+            _compare(real, rexc, ref, fexc, "%r %s%s %r" % (a, op, '=' if short else '', b))
+        except AssertionError as e:
+            msg = str(e)
+        if msg is None and fexc is None and isinstance(ref, float) and repr(real) != repr(ref):
+            msg = "%r %s %r: %r, Python semantics prescribe %r" % (a, op, b, real, ref)
+    assert msg is None, msg
+    hlib.done()
+
+
+PRETTY = ['0', '-0', '-0.00', '-0.000', '0.0000', '-0.0000', '1234', '-1234', '12345', '-12345', '123456789', '-123456789', '-0.004',
+          '1234.5678', '-1234.5678', '1E+30', '-1E-7', '-0E-7', '0E-7', '-0.00000', '999', '-99999', '100000', '-0.10']
+
+
+def pretty_numbers(di: int, via_round: bool, custom_sep: bool) -> None:
+    """
+    pre: 0 <= di < 24
+    post: True
+    """
+    hlib.enter(locals())
+    di = hlib.concrete(di, 0, 23)
+    with hlib.native():
+        v = RealDecimal(PRETTY[di])
+        if via_round and abs(v) < 10 ** 9:
+            v = round(v, 2)          # e.g. round(-0.004, 2) is a NEGATIVE zero with two places
+        args = (v, '_') if custom_sep else (v,)
+        real, rexc = _run(lambda: FUNCTIONS['pretty'](*args))
+        ref = R.r_pretty_number(*args)
+    assert rexc is None and real == ref, "pretty(%r%s) = %r, expected %r (sign apart, groups of three from the right)" % (v, ", '_'" if custom_sep else '', real, ref)
     hlib.done()
